@@ -71,6 +71,4 @@ def run_case(case: dict[str, Any], tier: str, seed: int) -> dict[str, Any]:
     if not prog.numeric:
         return {"status": "skipped", "reason": "metadata_skips_numeric_validation"}
     res = programs.differential(prog, _draws(prog.pid, tier, seed), seed=seed)
-    if res.get("model") is not None and registry.model_is_random(res["model"]):
-        return {"status": "skipped", "reason": "nondeterministic_by_construction"}
     return recs.record_from_differential(prog, res)
